@@ -189,8 +189,10 @@ pub fn worker_main(_args: &Args) -> i32 {
         let append = parts[4] == "1";
         let res = catch_unwind(AssertUnwindSafe(|| -> Result<(String, Option<String>), String> {
             let open = |dir: &Path| -> Result<Database, String> {
+                // one real worker: a recovered image may hold several sealed memtables, and without
+                // a worker the (correct) write stall of the appended writes would never be released
                 Database::builder(dir)
-                    .worker_threads_unchecked(0)
+                    .worker_threads_unchecked(1)
                     .journal_compression(if lz4 { fjall::CompressionType::Lz4 } else { fjall::CompressionType::None })
                     .open()
                     .map_err(|e| format!("{e:?}"))
